@@ -33,7 +33,7 @@ def finishes_clean(l0: int, l1: int, l2: int, d0: int, d1: int, d2: int, lag0: i
                    consume: int, k: int, n: int, child_first: bool, kill_fails: bool) -> bool:
     """
     pre: _l_ok(l0, l1, l2) and all(_d_ok(d) for d in (d0, d1, d2))
-    pre: 0 <= lag0 <= B('LAG') and 0 <= lag1 <= B('LAG') and rate in B('RATES') and 0 <= consume <= 2 and 1 <= k <= 2
+    pre: 0 <= lag0 <= B('LAG') and 0 <= lag1 <= B('LAG') and rate in B('RATES') and consume in ctx.B('CONSUME', [0, 1, 2]) and 1 <= k <= 2
     pre: n in B('NS')
     post: _
     """
@@ -89,6 +89,7 @@ CONDITIONS = [
      'tiers': {'quick': {'bounds': dict(QB, L2=[0, 2, 3], DELAYS=[0, 8, 13], RATES=[1, 2]), 'timeout': 600,
                          'shards': [{'life': list(p)} for p in _LIFE2], 'witness_shard': {'life': ['hang', 'ok']}},
                'thorough': {'bounds': TB, 'timeout': 8000,
-                            'shards': [{'life': list(p)} for p in _LIFE2] + [dict({'life': list(p)}, **TWIDE) for p in _LIFE2],
+                            'shards': [dict({'life': list(p)}, **TWIDE) for p in _LIFE2] +
+                                      [{'life': list(p), 'b.CONSUME': [0]} for p in (('ok', 'ok'), ('hang', 'ok'), ('ok', 'die'), ('die_idle', 'hang'))],
                             'witness_shard': {'life': ['hang', 'ok']}}}},
 ]
